@@ -253,7 +253,7 @@ func runC03(c *fw.Case) {
 	c.Count("histories", 1)
 	c.Count("steps", int64(len(obs.steps)))
 	if res.Stuck {
-		c.Violation("C03/liveness/request-stuck", "request made no progress for 20 s with no job in flight", wit(nil))
+		c.Violation("C03/liveness/request-stuck", "request made no progress for 45 s with no job in flight", wit(nil))
 		return
 	}
 	if res.Err != nil {
